@@ -560,7 +560,7 @@ class Diagram(cat.Arrow):
 
     def permute(self, *perm):
         """
-        Returns :code:`self >> self.permutation(perm, self.dom)`.
+        Returns :code:`self >> self.permutation(perm, self.cod)`.
 
         Parameters
         ----------
@@ -572,7 +572,7 @@ class Diagram(cat.Arrow):
         >>> x, y, z = Ty('x'), Ty('y'), Ty('z')
         >>> assert Id(x @ y @ z).permute(2, 1, 0).cod == z @ y @ x
         """
-        return self >> self.permutation(list(perm), self.dom)
+        return self >> self.permutation(list(perm), self.cod)
 
     @staticmethod
     def subclass(ar_factory):
